@@ -3,7 +3,11 @@
 //!   corgi-verif replay <ID> <file> [--root DIR]
 //! exit 0: property held on everything explored; 1: violation (VIOLATION line); 2: inconclusive / internal.
 
+mod c01;
 mod c02;
+mod c03;
+mod histcase;
+mod interp;
 mod c04;
 mod c05;
 mod c06;
@@ -24,6 +28,8 @@ use std::time::Instant;
 fn dispatch_for(id: &str) -> Option<fn(&str, &serde_json::Value) -> Option<Outcome>> {
     Some(match id {
         "C04" => c04::dispatch,
+        "C01" => c01::dispatch,
+        "C03" => c03::dispatch,
         "C05" => c05::dispatch,
         "C06" => c06::dispatch,
         "C07" => c07::dispatch,
@@ -35,6 +41,8 @@ fn dispatch_for(id: &str) -> Option<fn(&str, &serde_json::Value) -> Option<Outco
 fn run_check(ctx: &Ctx) -> i32 {
     match ctx.property.as_str() {
         "C04" => c04::run(ctx),
+        "C01" => c01::run(ctx),
+        "C03" => c03::run(ctx),
         "C05" => c05::run(ctx),
         "C06" => c06::run(ctx),
         "C07" => c07::run(ctx),
